@@ -2,10 +2,11 @@
 
 (P) coq/c15/Model_C15.v (the safepoint / stop-the-world handshake with the heap and `threads` mutexes as the
     code takes them) + coq/c16: no_runtime_deadlock for the repaired lock discipline, witnesses of the two
-    deadlocks of the code as it was, stop_terminates, channel FIFO.
+    deadlocks of the code as it was, stop_terminates (every script, spawns included: C16_stop_terminates_spawning),
+    channel FIFO.
 (G) coq/gen/Gen_C16.v: every heap-mutex acquisition site and every blocking built-in with whether it is inside
-    a safepoint, and the lock discipline of the global-update sites; `gen_config = cfg_fixed` ties the theorems
-    to what the source says now.
+    a safepoint, the lock discipline of the global-update sites and the order of the steps of spawn_native_thread
+    (guard < copy < start < register < release); `gen_config = cfg_fixed` ties the theorems to what the source says now.
 (C) generated multi-threaded programs run on the real engine under a watchdog reading hook H3's progress
     counters (harness/src/bin/c16.rs); the abstract program also runs in the Coq model under a fair schedule.
 """
